@@ -357,8 +357,17 @@ func c19Outcomes(c *Ctx) {
 			if !ok {
 				return false
 			}
-			fx, ok := b.X.(*ssa.Field)
-			if !ok || fieldName(fx.X.Type(), fx.Field) != "expiration" {
+			// the entry's expiration read as a field of a struct value or through the address of a local copy
+			isExp := false
+			switch fx := unwrap(b.X).(type) {
+			case *ssa.Field:
+				isExp = fieldName(fx.X.Type(), fx.Field) == "expiration"
+			case *ssa.UnOp:
+				if fa, isFA := fx.X.(*ssa.FieldAddr); isFA && fx.Op == token.MUL {
+					isExp = fieldName(fa.X.Type(), fa.Field) == "expiration"
+				}
+			}
+			if !isExp {
 				return false
 			}
 			switch b.Op {
